@@ -151,15 +151,25 @@ def construction_case(ck, rng, i):
     if any(r['error'] for r in ep.boot_nl):
         ck.violation('kernel-refused-a-start-up-request', {'errors': [(r['msg']['name'], r['error']) for r in ep.boot_nl if r['error']]}, sim.case)
     check_spd(ck, k, expect, sim.case, 'construction')
-    # shutdown
-    ep.step('tick')
+    # shutdown: after the loop has run, or (every third configuration) asked for BEFORE the main loop has started - SIGINT during start-up, a supervisor that stops the
+    # service right after starting it: the policies are in the kernel from the constructor on, so the flushes are owed from then on (what else close() trips over
+    # in that state is not this property's business)
+    early = i % 3 == 2
+    if not early:
+        ep.step('tick')
     prev, S.W.cur = S.W.cur, ep
     try:
         ep.ctl.close()
     except Exception as ex:
-        ck.violation(f'close-raised-{type(ex).__name__}', {'exc': repr(ex)[:200]}, sim.case)
+        if early:
+            ck.count('construction.close_before_the_main_loop_raised')
+        else:
+            ck.violation(f'close-raised-{type(ex).__name__}', {'exc': repr(ex)[:200]}, sim.case)
     finally:
         S.W.cur = prev
+    if early:
+        ck.count('construction.closed_before_the_main_loop_started')
+        sim.case['shutdown'] = 'before the main loop started'
     if k.spd or k.sad:
         ck.violation('spd-or-sad-not-empty-after-close', {'spd': len(k.spd), 'sad': len(k.sad)}, sim.case)
     else:
@@ -282,6 +292,47 @@ def flushes_under_adverse_kernels(ck, i):
     left = [key for key in stale if key in k.sad]
     if left or (('stale',), 1) in k.spd:
         ck.violation(f"daemon-runs-with-{'ipsec-sas' if left else 'policies'}-of-the-previous-incarnation-still-in-the-kernel", {'sad_left': len(left), 'stale_policy': (('stale',), 1) in k.spd}, sim.case)
+
+
+def rekey_generations(ck, i, prefix='rekey_generations'):
+    """A CHILD_SA replaced again and again (8 generations) by soft EXPIREs at the same end, at alternating ends, or at the other end: the SAs of EVERY generation, at both
+    ends, are installed with the entry's configured lifetime plus the documented jitter of 0-5 s (hard = soft + 10), or without limits for lifetime -1. Nothing accumulates."""
+    lifetime = (20, 300, 3600, -1, 7, 86400)[i % 6]
+    who = ('same', 'alternating', 'other')[(i // 6) % 3]
+    kw = dict(child_lifetime=lifetime, dpd=600, lifetime=36000, ipsec_proto='ah' if i % 5 == 4 else 'esp', mode=('transport', 'tunnel')[i % 2])
+    sim, a, b = S.make_pair(ck.seed * 71 + i, **kw)
+    sim.case = {'family': 'rekey-generations', 'configured_lifetime': lifetime, 'rekeyed_by': who, 'conf': kw}
+    if not S.handshake(sim, a, b):
+        ck.count(f'{prefix}.setup_failed')
+        return
+    proto = 51 if kw['ipsec_proto'] == 'ah' else 50
+    seen = 0
+    for gen_ in range(8):
+        ep = a if (who == 'same' or (who == 'alternating' and gen_ % 2 == 0)) else b
+        est = [x for x in ep.ctl.ike_sas if x.state.name == 'ESTABLISHED' and x.child_sas]
+        if not est:
+            break
+        child = est[0].child_sas[-1]
+        n0 = {e_.name: len(e_.kernel.requests) for e_ in (a, b)}
+        sim.expire(ep, bytes(child.inbound_spi), False, daddr=str(ep.addrs[0]), proto=proto)
+        sim.drain()
+        for e_ in (a, b):
+            for r_ in e_.kernel.requests[n0[e_.name]:]:
+                if not (r_['msg'] and r_['msg']['name'] == 'NEWSA'):
+                    continue
+                lft = r_['msg']['sa']['lft']
+                seen += 1
+                ck.count(f'{prefix}.lifetimes_checked')
+                if lifetime == -1:
+                    ok = lft['soft_add'] == 0 and lft['hard_add'] == 0
+                else:
+                    ok = lifetime <= lft['soft_add'] <= lifetime + 5 and lft['hard_add'] == lft['soft_add'] + 10
+                if not ok:
+                    ck.violation(f"lifetime-of-a-replacement-sa-is-not-the-entrys:generation-{'1' if gen_ == 0 else '2-or-later'}",
+                                 {'generation': gen_ + 1, 'endpoint': e_.name, 'soft': lft['soft_add'], 'hard': lft['hard_add'], 'configured': lifetime, 'rekeyed_by': who}, sim.case)
+                    return
+    ck.count(f'{prefix}.chains')
+    ck.nontrivial(('rekey-generations', lifetime, who, seen))
 
 
 def corners(net, port):
@@ -758,6 +809,9 @@ def run(ck):
     for i in range(64 if not thorough else 640):
         if ck.mine(i + 4):
             flushes_under_adverse_kernels(ck, i)
+    for i in range(18 if not thorough else 360):
+        if ck.mine(i + 7):
+            rekey_generations(ck, i)
 
 
 def verdict(ck):
@@ -770,6 +824,8 @@ def verdict(ck):
     ck.floor('lifetimes of SAs installed by a rekey compared with the entry', c['acquire.rekeyed_lifetimes_checked'], 20)
     ck.floor('shutdowns asked for a second time after the kernel refused a flush of the first attempt', c['flushes.shutdown_twice'], 24)
     ck.floor('start-ups on a kernel that reports a flush that found nothing as ESRCH (refused or started)', c['flushes.start_up_refused'] + c['flushes.started_on_a_kernel_that_reports_empty_flushes_as_esrch'], 24)
+    ck.floor('lifetimes of replacement SAs over 8 generations of rekeys checked', c['rekey_generations.lifetimes_checked'], 400)
+    ck.floor('shutdowns asked for before the main loop had started', c['construction.closed_before_the_main_loop_started'], 60)
     ck.floor('configurations loaded', c['construction.configs'], 250)
     ck.floor('policies compared', c['spd.policies_checked'], 2000)
     ck.floor('restart points', c['restart.points'], 30)
